@@ -31,3 +31,8 @@ MUTANTS = [
          old="        is_primitive_schema = schema_ir.type in [\"string\", \"integer\", \"number\", \"boolean\"] and not schema_ir.enum\n",
          new="        if schema_name and any(ci.cycle_path and ci.cycle_path[0] == schema_name for ci in context.unified_cycle_context.detected_cycles):\n            schema_ir._from_unresolved_ref = True\n        is_primitive_schema = schema_ir.type in [\"string\", \"integer\", \"number\", \"boolean\"] and not schema_ir.enum\n"),
 ]
+MUTANTS.append(dict(name="registry-lookup-by-lowercased-name", file='types/resolvers/schema_resolver.py', expect="R2.10",
+    old="        if schema.name and schema.name in self.ref_resolver.schemas:\n            target_schema = self.ref_resolver.schemas[schema.name]\n",
+    new="        if schema.name and schema.name.capitalize() in self.ref_resolver.schemas:\n            target_schema = self.ref_resolver.schemas[schema.name.capitalize()]\n"))
+MUTANTS.append(dict(name="cycle-heuristic-loses-item-exemption", file="core/parsing/unified_cycle_detection.py", expect="R2.2",
+    old='name.startswith(schema_name) and name != schema_name and not name.endswith("Item")', new='name.startswith(schema_name) and name != schema_name'))
